@@ -102,9 +102,11 @@ Definition c25_phase_ok (start : N) (subm : list (list item)) (wire : list bytes
   stored_ok attached stored wire.
 
 (* ---- on a case line and a result line (of either side) ------------------------------------------------------- *)
-Definition cspec_items (c : cspec) : list item :=
+(* pipe: pm_pipeline, where the by-reference send throws and submits nothing *)
+Definition cspec_items (pipe : bool) (c : cspec) : list item :=
   match c with
   | SSend sp => [spec_item sp]
+  | SRef sp => if pipe then [] else [spec_item sp]
   | SBatch l => map spec_item l
   | SBad => []
   end.
@@ -125,7 +127,7 @@ Definition clean_events (evs : list event) : bool :=
 Definition has_exc (evs : list event) : bool :=
   existsb (fun e => match e with EExc _ => true | _ => false end) evs.
 
-Definition c25_step_ok (prev : option N) (pk : pkind) (progs : list (list cspec)) (st : step) : bool :=
+Definition c25_step_ok (pipe : bool) (prev : option N) (pk : pkind) (progs : list (list cspec)) (st : step) : bool :=
   if has_exc (st_events st) then
     (* the operation was rejected before any thread was started: nothing may have been sent *)
     match outs_of (st_events st) with [] => true | _ => false end
@@ -136,22 +138,23 @@ Definition c25_step_ok (prev : option N) (pk : pkind) (progs : list (list cspec)
       match outs_of (st_events st) with [] => true | _ => false end
     | Some start, Some sn =>
       clean_events (st_events st) &&
-      c25_phase_ok start (map (flat_map cspec_items) progs) (outs_of (st_events st)) (sn_send sn)
+      c25_phase_ok start (map (flat_map (cspec_items pipe)) progs) (outs_of (st_events st)) (sn_send sn)
                    (match pk with PNone => false | _ => true end) (stored_now (sn_store sn))
     | _, _ => false
     end.
 
-Fixpoint c25_steps (prev : option N) (pk : pkind) (ops : list cop) (tr : trace) : bool :=
+Fixpoint c25_steps (pipe : bool) (prev : option N) (pk : pkind) (ops : list cop) (tr : trace) : bool :=
   match ops, tr with
   | [], [] => true
   | o :: ops', st :: tr' =>
     let pk' := match o with CPlain (OStart p _) _ => sp_pk p | _ => pk end in
-    let ok := match o with CConc progs => c25_step_ok prev pk' progs st | _ => true end in
+    let pipe' := match o with CPlain _ (Some b) => b | _ => pipe end in
+    let ok := match o with CConc progs => c25_step_ok pipe' prev pk' progs st | _ => true end in
     let prev' := match st_snap st with Some sn => Some (sn_send sn) | None => prev end in
-    ok && c25_steps prev' pk' ops' tr'
+    ok && c25_steps pipe' prev' pk' ops' tr'
   | _, _ => false
   end.
 
-Definition c25_ok (ops : list cop) (tr : trace) : bool := c25_steps None PNone ops tr.
+Definition c25_ok (ops : list cop) (tr : trace) : bool := c25_steps false None PNone ops tr.
 
 Definition c25_ok_line (case result : bytes) : bool := c25_ok (parse_cline case) (fparse_trace result).
